@@ -401,6 +401,7 @@ func (s *pState) flush(cw *cwriter.Writer, height int, iter <-chan *Bar) error {
 				s.hm.push(qb, true)
 			} else if s.popCompleted && !frame.noPop {
 				b.priority = s.popPriority
+				b.popped = true
 				s.popPriority++
 				s.hm.push(b, false)
 			} else if !frame.rmOnComplete {
